@@ -632,8 +632,11 @@ func (g *Gen) membershipSteps(v View) []step {
 			kind := rapid.SampledFrom([]string{"addnv", "addv", "promote", "remove", "remove", "addv"}).Draw(g.T, "mkind")
 			fresh := ""
 			for i := 0; i < 7; i++ {
-				if _, ok := members[nodeID(i)]; !ok {
-					fresh = nodeID(i)
+				id := nodeID(i)
+				if _, ok := members[id]; !ok {
+					if n := g.C.Nodes[id]; n != nil && n.everStarted {
+						fresh = id // only nodes that exist are added
+					}
 					break
 				}
 			}
@@ -659,22 +662,42 @@ func (g *Gen) membershipSteps(v View) []step {
 				return Action{Op: "add", Node: at, Node2: g.pick("nv", nv), Voter: true, Client: g.nextClient(), Timeout: g.timeout()}, true
 			}
 			var ms []string
-			for id := range members {
+			voters := 0
+			for _, voter := range members {
+				if voter {
+					voters++
+				}
+			}
+			for id, voter := range members {
+				if voter && voters <= 1 {
+					continue // removing the last voting member leaves a cluster that cannot do anything
+				}
 				ms = append(ms, id)
 			}
 			sort.Strings(ms)
-			if len(ms) <= 1 {
+			if len(ms) < 1 {
 				return Action{Op: "advance", DurUs: hb}, true
 			}
 			return Action{Op: "remove", Node: at, Node2: g.pick("rm", ms), Client: g.nextClient(), Timeout: g.timeout()}, true
 		}
 	}
-	// start the node that an add refers to (documentation: new nodes are started empty)
+	// start the nodes that an add may refer to (documentation: new nodes are started empty): every
+	// id that is not running and was never started, up to the first id that is not a member anywhere
 	startFresh := func(g *Gen, v View) (Action, bool) {
+		members := map[string]bool{}
+		for _, cf := range v.Conf {
+			for id := range cf.Members {
+				members[id] = true
+			}
+		}
 		for i := 0; i < 7; i++ {
 			id := nodeID(i)
-			if n := g.C.Nodes[id]; n == nil || (!n.everStarted && n.Stopped()) {
+			n := g.C.Nodes[id]
+			if n == nil || (!n.everStarted && n.Stopped()) {
 				return Action{Op: "startempty", Node: id}, true
+			}
+			if !members[id] {
+				break // a started node that is not a member yet: the next add will pick it
 			}
 		}
 		return Action{Op: "advance", DurUs: 1000}, true
